@@ -11,7 +11,7 @@ from harness import core
 
 ID = 'C25'
 TITLE = 'Migrations are total and reach the current schema'
-PROPS = ['Props/C25', 'Props/C25_bodies', 'Props/C25_bodies2', 'Props/C25_bodies3', 'Props/C25_bodies4']
+PROPS = ['Props/C25', 'Props/C25_bodies']
 RULE = ('Documents "at version K" are generated offline for every K in 0..SCHEMA_VERSION: the version-0 schema of '
         'test_migrations + the real migrations 1..K give the version-K metadata schema; every metadata table gets 0-3 '
         'rows of type-correct cells in the form create_migrations receives them (references to existing rows or 0, '
